@@ -30,3 +30,74 @@ func TestDebugReplay(t *testing.T) {
 	out := sim.Run(pc.Cfg, pc.Case.Prog.Text(), pc.Case.Init(), 60000, nil)
 	t.Logf("outcome %s %s\n%s", out.Kind, sim.Diff(out, r), out.Stack)
 }
+
+// TestDebugRepeat runs a c08 replay case several times and prints the outcomes.
+func TestDebugRepeat(t *testing.T) {
+	path := os.Getenv("VERIF_DEBUG_REPEAT")
+	if path == "" {
+		t.Skip()
+	}
+	rp, err := evid.ReadReplay(path)
+	if err != nil {
+		t.Fatal(err)
+	}
+	var c c08Case
+	if err := json.Unmarshal(rp.Case, &c); err != nil {
+		t.Fatal(err)
+	}
+	for k := 0; k < 6; k++ {
+		o := sim.Run(c.Cfg, c.Case.Prog.Text(), c.Case.Init(), sim.BudgetFor(refSteps(&c.Case)), nil)
+		t.Logf("%s %s cycles=%d err=%q", c.Cfg, o.Kind, o.Cycles, o.Err)
+	}
+}
+
+// TestDebugRigMin greedily minimises a failing rig schedule (development aid).
+func TestDebugRigMin(t *testing.T) {
+	path := os.Getenv("VERIF_DEBUG_RIG")
+	if path == "" {
+		t.Skip()
+	}
+	rp, err := evid.ReadReplay(path)
+	if err != nil {
+		t.Fatal(err)
+	}
+	var c rigCase
+	if err := json.Unmarshal(rp.Case, &c); err != nil {
+		t.Fatal(err)
+	}
+	fails := func(c rigCase) bool { v, _ := runRig(c); return v != "" }
+	if !fails(c) {
+		t.Fatal("does not fail")
+	}
+	for changed := true; changed; {
+		changed = false
+		for i := range c.Reqs {
+			d := c
+			d.Reqs = append(append([]rigReq(nil), c.Reqs[:i]...), c.Reqs[i+1:]...)
+			if fails(d) {
+				c, changed = d, true
+				break
+			}
+		}
+		for i := range c.Reqs {
+			d := c
+			d.Reqs = append([]rigReq(nil), c.Reqs...)
+			if d.Reqs[i].Delay > 0 {
+				d.Reqs[i].Delay = 0
+				if fails(d) {
+					c, changed = d, true
+				}
+			}
+		}
+		if c.Cores > 2 {
+			d := c
+			d.Cores--
+			if fails(d) {
+				c, changed = d, true
+			}
+		}
+	}
+	v, _ := runRig(c)
+	b, _ := json.Marshal(c)
+	t.Logf("%s\n%s", v, b)
+}
